@@ -465,14 +465,24 @@ impl<'a> Lexer<'a> {
     /// Gets the current span of the lexer.
     pub fn span(&self) -> SourceSpan {
         let mut span = self.0.span();
-        if span.end == self.0.source().len() {
+        let source = self.0.source();
+        if span.end == source.len() {
             // Currently miette silently fails to display a label
             // if the span is at the end of the source; this means
             // we can't properly show the "end of input" span.
-            // For now, have the span point at the last byte in the source.
+            // For now, have the span point at the last character before the span
+            // (a whole character, so the span stays on character boundaries and
+            // inside the source, even when the source is empty).
             // See: https://github.com/zkat/miette/issues/219
-            span.start = span.start.saturating_sub(1);
-            span.end = span.start + 1;
+            match source[..span.start].char_indices().next_back() {
+                Some((start, _)) => {
+                    span.end = span.start;
+                    span.start = start;
+                }
+                None => {
+                    span.end = source.chars().next().map_or(0, char::len_utf8);
+                }
+            }
         }
 
         to_source_span(span)
